@@ -258,17 +258,22 @@ func parseAV(b []byte) (pairs []avPair, rest []byte, ok bool) {
 // ---- CHALLENGE writer -----------------------------------------------------------
 
 type chalSpec struct {
-	Flags      uint32
-	SC         [8]byte
-	TargetName []byte // already encoded in the charset of Flags
-	TargetInfo []byte // encoded AV list (nil when TARGET_INFO is not negotiated)
-	Version    [8]byte
-	InfoFirst  bool // payload order
-	Gap0       int  // bytes between header and first payload item
-	Gap1       int  // between the two payload items
-	Gap2       int  // after the last
-	GapFill    byte
+	Flags        uint32
+	SC           [8]byte
+	TargetName   []byte // already encoded in the charset of Flags
+	TargetInfo   []byte // encoded AV list (nil when TARGET_INFO is not negotiated)
+	Version      [8]byte
+	InfoFirst    bool // payload order
+	Gap0         int  // bytes between header and first payload item
+	Gap1         int  // between the two payload items
+	Gap2         int  // after the last
+	GapFill      byte
 	ZeroOffEmpty bool // an empty field carries Offset 0 instead of the running position
+	// things a receiver MUST ignore (MS-NLMP 2.2.1.2, 2.2.2.10): the Reserved
+	// field, MaxLen of both descriptors (added to Len here)
+	Reserved    [8]byte
+	MaxSkewName uint16
+	MaxSkewInfo uint16
 }
 
 func (c chalSpec) build() []byte {
@@ -285,9 +290,14 @@ func (c chalSpec) build() []byte {
 			payload = append(payload, c.GapFill)
 		}
 	}
+	copy(h[32:], c.Reserved[:])
 	put := func(at int, v []byte) {
+		skew := c.MaxSkewName
+		if at == 40 {
+			skew = c.MaxSkewInfo
+		}
 		binary.LittleEndian.PutUint16(h[at:], uint16(len(v)))
-		binary.LittleEndian.PutUint16(h[at+2:], uint16(len(v)))
+		binary.LittleEndian.PutUint16(h[at+2:], uint16(len(v))+skew)
 		off := pos()
 		if len(v) == 0 && c.ZeroOffEmpty {
 			off = 0
